@@ -255,9 +255,26 @@ func runOne(r *sim.Run) {
 	ms.Attach()
 	defer ms.Detach()
 	ru.g = mkGenesis(t)
+	if ru.g.specialIDs > 0 {
+		r.Count("probe:service_id_with_special_octets", int64(ru.g.specialIDs))
+	}
 	// ---------------- phase A: author ----------------------------------------------------------
 	scratch, root0, err := ru.freshNode()
 	if err != nil {
+		// the genesis key-values are the repository's own serialisation of a well-formed state: a node that
+		// refuses to import them breaks the export/import round trip (C17); for the other properties nothing
+		// can be decided without a node, which is an infrastructure failure, not a violation
+		if r.Prop == "C17" {
+			short := err.Error()
+			if k := strings.Index(short, " of service ID"); k > 0 {
+				short = short[:k]
+			}
+			if len(short) > 50 {
+				short = short[:50]
+			}
+			r.Violate("C17", "import-refused", "well-formed-state-refused:"+short, "SetState refuses the serialisation (StateEncoder) of a well-formed generated state with services %v: %v", ru.g.svcIDs, err)
+			return
+		}
 		panic("SetState(genesis) failed: " + err.Error())
 	}
 	gh := headerHash(ru.g.header)
